@@ -745,6 +745,24 @@ func c15Gen(r *rand.Rand, tier string) []Case {
 		input := sx.L("print", decor, descs, sx.L("docs", scDocSx("ok", w)))
 		out = append(out, Case{ID: fmt.Sprintf("p%d", i), Input: input, Tags: []string{"nontrivial"}, Human: scDocText(w)})
 	}
+	// a directive argument of a recursive input object type, with defaults on both: the printed
+	// default must not pick up the defaults of the input type (it would grow on every reload)
+	for i := 0; i < 3; i++ {
+		obj := func(n int64) *scV { return &scV{K: "o", F: []int{10}, L: []scV{{K: "i", I: n}}} }
+		in := scItem{K: kInput, N: 30, Inputs: []scArg{{N: 10, T: scT{N: 0}, Def: &scV{K: "i", I: 1}}, {N: 11, T: scT{N: 30}, Def: obj(int64(5 + i))}}}
+		d := scItem{K: kDirective, N: 10, Inputs: []scArg{{N: 10, T: scT{N: 30}, Def: obj(2)}}, Locs: []int{9}}
+		use := scDU{N: 10}
+		if i > 0 {
+			use.Args = []scAV{{N: 10, V: *obj(int64(7 + i))}}
+		}
+		q := scItem{K: kObject, N: 10, Fields: []scField{{N: 10, T: scT{N: 0}}}, Dirs: []scDU{use}}
+		w := []scItem{in, d, q}
+		if i == 2 {
+			w = []scItem{q, d, in}
+		}
+		input := sx.L("print", sx.L("decor"), sx.L("descs"), sx.L("docs", scDocSx("ok", w)))
+		out = append(out, Case{ID: fmt.Sprintf("precur%d", i), Input: input, Tags: []string{"nontrivial", "recursive-input-default"}, Human: scDocText(w)})
+	}
 	return out
 }
 
